@@ -342,16 +342,30 @@ class HeaderList(Contract):
 
     # cookie loop (loop 0): i cookies appended after the optional default Content-Type
     def before_loop(self, X, k):
+        if k != self.ck:
+            return
         out = X.env.get('out')
         if not isinstance(out, Out):
             raise Unsupported('cookie loop without the list `out`')
         X.ghost['c0'] = VInt(out.tail_len)
 
-    loop_frozen_ghost = {0: ('c0',)}
+    @property
+    def ck(self):
+        """ordinal of the cookie loop: the for statement that iterates over self._cookies (robust against loops being added
+        or removed elsewhere in the function)"""
+        d = getattr(self, '_driver', None)
+        for k, n in enumerate(d.loops if d else []):
+            if isinstance(n, ast.For) and '_cookies' in ast.unparse(n.iter):
+                return k
+        return None
+
+    @property
+    def loop_frozen_ghost(self):
+        return {self.ck: ('c0',)} if self.ck is not None else {}
 
     def _inv0(self, X):
         out = X.env['out']
-        i = X.env['__i0'].t
+        i = X.env[f'__i{self.ck}'].t
         c0 = X.ghost['c0'].t
         m = z3.Int('m!inv')
         return [
@@ -362,14 +376,14 @@ class HeaderList(Contract):
 
     @property
     def loop_inv(self):
-        return {0: self._inv0}
+        return {self.ck: self._inv0} if self.ck is not None else {}
 
     def loop_variant_0(self, X):
-        return self.cookies.n - X.env['__i0'].t
+        return self.cookies.n - X.env[f'__i{self.ck}'].t
 
     @property
     def loop_variant(self):
-        return {0: self.loop_variant_0}
+        return {self.ck: self.loop_variant_0} if self.ck is not None else {}
 
     def post(self, X, ret):
         X.prove('post.returns_the_list', z3.BoolVal(isinstance(ret, Out) and self.flat_built == 1))
